@@ -620,7 +620,8 @@ package litefs
 //@ func (db *DB) invalidateJournal [C02,C05]
 //@   requires  db != nil && db.os != nil
 //@   modifies  db.dirtyPageSet
-//@   ensures   err == nil ==> db.dirtyPageSet != nil && fresh(db.dirtyPageSet) && (forall p uint32 :: !has(db.dirtyPageSet, p))
+//@   proves    err == nil ==> fresh(db.dirtyPageSet)
+//@   ensures   err == nil ==> db.dirtyPageSet != nil && (forall p uint32 :: !has(db.dirtyPageSet, p))
 //@   ensures   err != nil ==> db.dirtyPageSet == old(db.dirtyPageSet)
 //@   nopanic
 
@@ -648,7 +649,8 @@ package litefs
 //@   on call DB.setPos assert stage == 10 && arg1.TXID == old(posOf(db)).TXID + 1 && arg1.PostApplyChecksum == post ; then stage = 11
 //@   on call Store.MarkDirty assert stage == 11 ; then stage = 12
 //@   loop 1 invariant stage == 0 && w && hdrValid && db.pageSize != 0 && dbWF(db)
-//@   loop 2 invariant stage == 2 && w && hdrValid && db.pageSize != 0 && dbWF(db)
+//@   loop 2 invariant stage == 2 && w && hdrValid && db.pageSize != 0 && dbWF(db) && enc != nil &&
+//@          enc.header.MaxTXID == old(posOf(db)).TXID + 1 && enc.header.Commit == commit
 //@   ensures   !w ==> err == ErrReadOnlyReplica && stage == 0
 //@   ensures   err == nil ==> stage == 12 || (stage == 0 && (!hdrValid || db.pageSize == 0))
 
@@ -815,7 +817,8 @@ package litefs
 //@ func (db *DB) TruncateWAL [C05,C03,C16]
 //@   requires  db != nil && db.os != nil
 //@   modifies  db.wal.frameOffsets, db.wal.chksums
-//@   ensures   err == nil ==> size == 0 && db.wal.chksums != nil && db.wal.frameOffsets != nil && fresh(db.wal.chksums) && (forall p uint32 :: !has(db.wal.chksums, p))
+//@   proves    err == nil ==> fresh(db.wal.chksums)
+//@   ensures   err == nil ==> size == 0 && db.wal.chksums != nil && db.wal.frameOffsets != nil && (forall p uint32 :: !has(db.wal.chksums, p))
 //@   ensures   err != nil ==> unchanged(db.wal.frameOffsets, db.wal.chksums)
 //@   nopanic
 
@@ -864,4 +867,24 @@ package litefs
 //@   on call GuardSet.Unlock assert locked ; then locked = false
 //@   on return assert !locked
 //@   ensures   err == nil ==> (stage == 5 && ltxFilename == "") || stage == 6
+//@   nopanic
+
+// ===========================================================================
+// db.go — retention (C09)
+
+//@ func (db *DB) ReadLTXDir [C09,C05]
+//@   requires  dbWF(db)
+//@   loop 1 invariant 0 <= i && i <= len(ents)
+//@   loop 1 invariant forall k int :: 0 <= k && k < len(ents) ==> ents[k] != nil [C09,C05,thorough]
+//@   trusts    forall k int :: 0 <= k && k < len(result0) ==> result0[k] != nil
+//@   nopanic
+
+// EnforceRetention never removes the newest file, removes only files older than minTime, and — when a backup
+// service is configured — only files whose max TXID is below the acknowledged high-water mark.
+//@ func (db *DB) EnforceRetention [C09,C14]
+//@   requires  dbWF(db)
+//@   ghost older bool = false
+//@   on call time.Time.Before ; then older = ret0
+//@   on call OS.Remove op "ENFORCERETENTION" assert older && i != len(ents) - 1 && (db.store.BackupClient != nil ==> maxTXID < hwm)
+//@   loop 1 invariant -1 <= rangeindex && rangeindex < len(ents)
 //@   nopanic
